@@ -67,15 +67,45 @@ def first_culprit(make, victim_snap_fn):
 
 
 # ----------------------------------------------------------------------------------------------------------
-# one case of a copy route (ctor / pickle / deepcopy)
+# checks common to every route once the result exists
+# ----------------------------------------------------------------------------------------------------------
+def independence(ctx, viol, label, res, sources, owners, ml):
+    """mutate every mutable component of the result, re-inspect the sources (and the ensembles they are views of);
+    then mutate the sources and re-inspect the result"""
+    base_src = [H.snapshot(s) for s in sources]
+    base_own = [H.snapshot(o) for o in owners]
+    done = apply_all(H.mutations(res, ml))
+    d = []
+    for b, s in zip(base_src + base_own, list(sources) + list(owners)):
+        d = d or H.snap_diff(b, H.snapshot(s))
+    if d:
+        viol.append((f"C06:source-changed-by-editing-copy:{component(d[0])}", f"{label}: editing the result changed a source in {d[:3]}"))
+    base_res = H.snapshot(res)
+    seen = set()
+    for s in list(sources) + list(owners):
+        if id(s) not in seen:
+            seen.add(id(s))
+            apply_all(H.mutations(s, ml))
+    d = H.snap_diff(base_res, H.snapshot(res))
+    if d:
+        viol.append((f"C06:copy-changed-by-editing-source:{component(d[0])}", f"{label}: editing a source changed the result in {d[:3]}"))
+    ctx.count("mutations_applied", len(done))
+
+
+# ----------------------------------------------------------------------------------------------------------
+# one case of a plain copy route (ctor / pickle / deepcopy / copy.copy)
 # ----------------------------------------------------------------------------------------------------------
 def case_copy(ctx, kind, route, case_seed, report=True):
+    import copy as _copy
+    import pickle as _pickle
+
     import molli as ml
 
     rng = common.Prng(case_seed)
     I, ids = H.Intern(), H.Ids()
     src = H.make_source(rng, kind, ml)
     tag = {"case": "copy", "kind": kind, "route": route, "case_seed": case_seed}
+    label = f"{route} of a {kind}"
     viol = []
     snap0 = H.snapshot(src)
     own0 = H.snapshot(src._parent) if kind == "Conformer" else None
@@ -83,58 +113,161 @@ def case_copy(ctx, kind, route, case_seed, report=True):
     n = ids.count
     line = f"copy {n} {H.CLS_CODE[kind]} 0 0 - - - {enc}"
     try:
-        res = H.route_copy(route, src, ml)
+        if route == "pickle":
+            res = _pickle.loads(_pickle.dumps(src, protocol=rng.range(2, _pickle.HIGHEST_PROTOCOL)))
+        elif route == "shallow":
+            res = _copy.copy(src)
+        else:
+            res = H.route_copy(route, src, ml)
     except Exception as e:
-        viol.append(("C06:route-raised", f"{route} of a {kind} raised {type(e).__name__}: {str(e)[:80]}"))
+        viol.append(("C06:route-raised", f"{label} raised {type(e).__name__}: {str(e)[:80]}"))
         return line, None, None, viol, tag
-    if H.snapshot(src) != snap0:
-        viol.append(("C06:source-changed-by-derivation", f"{route} of a {kind} changed its source"))
+    if H.snapshot(src) != snap0 or (own0 is not None and H.snapshot(src._parent) != own0):
+        d = H.snap_diff(snap0, H.snapshot(src))
+        viol.append(("C06:source-changed-by-derivation", f"{label} changed its source in {d[:3]}"))
+    if route == "shallow":
+        # copy.copy is a shallow copy by definition (it shares everything); the only claim is that making it leaves the source alone,
+        # also after the shallow copy is gone
+        del res
+        import gc
+        gc.collect()
+        d = H.snap_diff(snap0, H.snapshot(src))
+        if d:
+            viol.append(("C06:source-changed-by-derivation", f"{label}: after the shallow copy was dropped the source differs in {d[:3]}"))
+        return None, None, None, viol, tag
     try:
         obs = H.obs_string(res, I)
         shared = H.shared_paths(res, [src])
         H.snapshot(res)
     except Exception as e:
-        viol.append(("C06:copy-unusable", f"{route} of a {kind}: inspecting the result raised {type(e).__name__}: {str(e)[:80]}"))
+        viol.append(("C06:copy-unusable", f"{label}: inspecting the result raised {type(e).__name__}: {str(e)[:80]}"))
         return line, None, None, viol, tag
     # ---- faithful
     d = H.snap_diff(snap0, H.snapshot(res))
     if d:
-        viol.append((f"C06:copy-differs-from-source:{component(d[0])}", f"{route} of a {kind}: result differs from the source in {d[:4]}"))
+        viol.append((f"C06:copy-differs-from-source:{component(d[0])}", f"{label}: result differs from the source in {d[:4]}"))
     if shared:
-        viol.append((f"C06:copy-shares-state:{component(shared[0])}", f"{route} of a {kind}: {shared[:3]} ({len(shared)} shared objects)"))
-    # ---- independence, both directions
-    base_res = H.snapshot(res)
-    done = apply_all(H.mutations(res, ml))
-    d = H.snap_diff(snap0, H.snapshot(src))
-    if own0 is not None and not d:
-        d = H.snap_diff(own0, H.snapshot(src._parent))
+        viol.append((f"C06:copy-shares-state:{component(shared[0])}", f"{label}: {shared[:3]} ({len(shared)} shared objects)"))
+    independence(ctx, viol, label, res, [src], [src._parent] if kind == "Conformer" else [], ml)
+    return line, obs, shared, viol, tag
+
+
+# ----------------------------------------------------------------------------------------------------------
+# copy constructors of any class, with keyword overrides; from a list of atoms; ensemble from a list of structures
+# ----------------------------------------------------------------------------------------------------------
+def case_copyas(ctx, kind, target, mode, case_seed, keywords=None):
+    """mode: kw (same class, 1..2 keywords) | cast (another class, 0..1 keywords) | atoms (Cls(list of atoms, copy_atoms=True))
+             | enslist (ConformerEnsemble([molecules]))"""
+    import molli as ml
+
+    rng = common.Prng(case_seed)
+    I, ids = H.Intern(), H.Ids()
+    tag = {"case": "copyas", "kind": kind, "target": target, "mode": mode, "case_seed": case_seed}
+    viol = []
+    src = H.make_source(rng, kind, ml)
+    sources, owners = [src], ([src._parent] if kind == "Conformer" else [])
+    if mode == "enslist":
+        # conformers of one molecule: copies of it with their own coordinates and charges
+        k = rng.range(1, 3)
+        sources = [src]
+        for _ in range(k - 1):
+            m = ml.Molecule(src)
+            m.coords = H.rand_coords(rng, (src.n_atoms, 3))
+            m.atomic_charges = H.rand_coords(rng, (src.n_atoms,))
+            sources.append(m)
+    snaps0 = [H.snapshot(s) for s in sources]
+    own0 = [H.snapshot(o) for o in owners]
+    src_k = src.n_conformers if kind == "ConformerEnsemble" else None
+    if keywords is not None:
+        kw = H.make_keywords(rng, keywords)
+    elif mode == "kw":
+        kw = {}
+        while not kw:
+            kw = H.random_keywords(rng, target, [], 2)
+    elif mode == "cast":
+        kw = H.random_keywords(rng, target, [], 1)
+    elif mode == "atoms":
+        kw = H.random_keywords(rng, target, [], 1)
+        kw["copy_atoms"] = True
+        kw.pop("n_atoms", None)
+    else:
+        kw = {}
+    eff_kind = "Promolecule" if mode == "atoms" else kind
+    shapes = H.target_shapes(eff_kind, target, src.n_atoms, src_k, kw)
+    H.fill_array_keywords(rng, kw, shapes)
+    label = f"{target}({'list of atoms of a ' if mode == 'atoms' else ''}{'list of ' if mode == 'enslist' else ''}{kind}" + \
+            "".join(f", {k}=…" for k in kw) + ")"
+    tag["keywords"] = sorted(kw)
+    # ---- request for the model (the source is encoded before the call)
+    if mode == "atoms":
+        enc = H.encode_atoms_only(src, I, ids)
+    else:
+        enc = H.encode_mol(src, I, ids)
+    if mode == "enslist":
+        kwm = {"coords": np.array([s.coords for s in sources]), "atomic_charges": np.array([s.atomic_charges for s in sources])}
+        shapes = [(len(sources), src.n_atoms, 3), (len(sources), src.n_atoms), (len(sources),)]
+    else:
+        kwm = kw
+    sc, at, arrs, fills = H.override_tokens(kwm, target, shapes, I, ids)
+    n = ids.count
+    line = f"copyas {n} {H.CLS_CODE[target]} {sc} {at} {arrs} {fills} - {enc}"
+    # ---- the real call
+    cls = getattr(ml, target)
+    try:
+        if mode == "atoms":
+            res = cls(list(src.atoms), **kw)
+        elif mode == "enslist":
+            res = cls(list(sources))
+        else:
+            res = cls(src, **kw)
+    except Exception as e:
+        viol.append(("C06:route-raised", f"{label} raised {type(e).__name__}: {str(e)[:80]}"))
+        return line, None, None, viol, tag
+    for s0, s in zip(snaps0 + own0, sources + owners):
+        d = H.snap_diff(s0, H.snapshot(s))
+        if d:
+            viol.append((f"C06:source-changed-by-derivation", f"{label} changed its source in {d[:3]}"))
+            break
+    try:
+        obs = H.obs_string(res, I)
+        shared = H.shared_paths(res, sources)
+        rs = H.snapshot(res)
+    except Exception as e:
+        viol.append(("C06:copy-unusable", f"{label}: inspecting the result raised {type(e).__name__}: {str(e)[:80]}"))
+        return line, None, None, viol, tag
+    # ---- faithful: what the classes have in common is that of the source, the overrides are what was passed
+    if mode == "atoms":
+        base = {"cls": target, "name": "unknown", "charge": 0, "mult": 1, "attrib": {}, "atoms": snaps0[0]["atoms"], "bonds": [], "arrays": []}
+        exp = H.expected_cast(base, "Promolecule", target, kw, shapes)
+    else:
+        exp = H.expected_cast(snaps0[0], kind, target, kwm, shapes)
+    d = H.snap_diff(exp, rs)
     if d:
-        viol.append((f"C06:source-changed-by-editing-copy:{component(d[0])}",
-                     f"{route} of a {kind}: editing the copy changed the source in {d[:3]}"))
-    base_res = H.snapshot(res)
-    apply_all(H.mutations(src, ml))
-    if kind == "Conformer":
-        apply_all(H.mutations(src._parent, ml))
-    d = H.snap_diff(base_res, H.snapshot(res))
-    if d:
-        viol.append((f"C06:copy-changed-by-editing-source:{component(d[0])}",
-                     f"{route} of a {kind}: editing the source changed the copy in {d[:3]}"))
-    ctx.count("mutations_applied", len(done))
+        viol.append((f"C06:copy-differs-from-source:{component(d[0])}", f"{label}: result is not the source with the overrides applied: {d[:4]}"))
+    if shared:
+        viol.append((f"C06:copy-shares-state:{component(shared[0])}", f"{label}: {shared[:3]} ({len(shared)} shared objects)"))
+    independence(ctx, viol, label, res, sources, owners, ml)
     return line, obs, shared, viol, tag
 
 
 # ----------------------------------------------------------------------------------------------------------
 # concatenate / join
 # ----------------------------------------------------------------------------------------------------------
-def expected_concat(s1, s2):
-    n1 = len(s1["atoms"])
-    atoms = [a[:10] + (i,) for i, a in enumerate([*s1["atoms"], *s2["atoms"]])]
-    bonds = list(s1["bonds"]) + [(b[0] + n1, b[1] + n1) + b[2:] for b in s2["bonds"]]
+def expected_concat(snaps):
+    atoms, bonds, off = [], [], 0
+    for sn in snaps:
+        atoms += list(sn["atoms"])
+        bonds += [(b[0] + off, b[1] + off) + b[2:] for b in sn["bonds"]]
+        off += len(sn["atoms"])
+    atoms = [a[:10] + (i,) for i, a in enumerate(atoms)]
+    nslots = min(len(sn["arrays"]) for sn in snaps)
     arrays = []
-    for (dt1, sh1, v1), (dt2, sh2, v2) in zip(s1["arrays"], s2["arrays"]):
-        arrays.append((dt1, (sh1[0] + sh2[0],) + tuple(sh1[1:]), v1 + v2))
-    return {"atoms": atoms, "bonds": bonds, "arrays": arrays, "charge": s1["charge"] + s2["charge"],
-            "mult": s1["mult"] + s2["mult"] - 1}
+    for j in range(nslots):
+        dt, sh = snaps[0]["arrays"][j][0], snaps[0]["arrays"][j][1]
+        vals = [v for sn in snaps for v in sn["arrays"][j][2]]
+        arrays.append((dt, (sum(sn["arrays"][j][1][0] for sn in snaps),) + tuple(sh[1:]), vals))
+    return {"atoms": atoms, "bonds": bonds, "arrays": arrays, "charge": sum(sn["charge"] for sn in snaps),
+            "mult": sum(sn["mult"] for sn in snaps) - 1}
 
 
 def expected_join(s1, s2, i1, i2):
@@ -156,128 +289,274 @@ def expected_join(s1, s2, i1, i2):
     return {"atoms": atoms, "bonds": bonds, "newbond": (m1[p1], m2[p2]), "charges": charges}
 
 
-def case_derive(ctx, what, kind, case_seed, same=False):
+def case_concat(ctx, kind, case_seed, pattern=None):
+    """cls.concatenate(*operands): 1..4 operands drawn (with repetition) from a pool of distinct sources; `a | b` for two"""
     import molli as ml
 
     rng = common.Prng(case_seed)
     I, ids = H.Intern(), H.Ids()
     cls = getattr(ml, kind)
-    ap = what == "join"
-    s1 = H.make_source(rng, kind, ml, ap=ap)
-    s2 = s1 if same else H.make_source(rng, kind, ml, ap=ap)
-    srcs = [s1] if same else [s1, s2]
-    tag = {"case": what, "kind": kind, "case_seed": case_seed, "same": same}
+    if pattern is None:
+        nops = rng.weighted([(1, 2), (2, 3), (3, 4), (4, 3)])
+        pool_n = rng.range(1, nops)
+        pattern = [rng.below(pool_n) for _ in range(nops)]
+    operand_kinds = ["Molecule", "Conformer"] if kind == "Molecule" else ["Structure", "Structure", "Molecule", "Conformer"]
+    pool = []
+    for _ in range(max(pattern) + 1):
+        k = kind if rng.below(100) < 70 else rng.choice(operand_kinds)
+        pool.append(H.make_source(rng, k, ml))
+    ops = [pool[i] for i in pattern]
+    owners = [p._parent for p in pool if H.clsname(p) == "Conformer"]
+    tag = {"case": "concat", "kind": kind, "case_seed": case_seed, "pattern": pattern}
+    label = f"{kind}.concatenate of {len(ops)} operands {pattern}"
+    viol = []
+    snaps = [H.snapshot(o) for o in ops]
+    own0 = [H.snapshot(o) for o in owners]
+    enc = " ".join(H.encode_mol(o, I, ids) for o in ops)
+    n = ids.count
+    use_or = len(ops) == 2 and kind == "Structure" and rng.below(2) == 0
+    try:
+        with warnings.catch_warnings():
+            warnings.simplefilter("ignore")
+            res = (ops[0] | ops[1]) if use_or else cls.concatenate(*ops)
+    except Exception as e:
+        viol.append(("C06:route-raised", f"{label} raised {type(e).__name__}: {str(e)[:80]}"))
+        return None, None, None, viol, tag
+    if any(H.snapshot(o) != sn for o, sn in zip(ops + owners, snaps + own0)):
+        viol.append(("C06:source-changed-by-derivation", f"{label} changed a source"))
+    line = f"concat {n} {H.CLS_CODE[H.clsname(res)]} 0 0 - - - {enc}"
+    obs = H.obs_string(res, I)
+    shared = H.shared_paths(res, pool)
+    rs = H.snapshot(res)
+    exp = expected_concat(snaps)
+    exp["arrays"] = exp["arrays"][: H.SLOTS[H.clsname(res)]]
+    for k in ("atoms", "bonds", "arrays", "charge", "mult"):
+        if k == "arrays":
+            bad = [(a[0], tuple(a[1]), a[2]) for a in rs["arrays"]] != [(a[0], tuple(a[1]), a[2]) for a in exp["arrays"]]
+        else:
+            bad = rs[k] != exp[k]
+        if bad:
+            sub = "arrays" if k == "arrays" else component(H.snap_diff({k: exp[k]}, {k: rs[k]})[0] if k in ("atoms", "bonds") else k)
+            viol.append((f"C06:product-differs-from-sources:{sub}", f"{label}: {k} of the result are not those of the sources"))
+            break
+    if shared:
+        viol.append((f"C06:copy-shares-state:{component(shared[0])}", f"{label}: {shared[:3]} ({len(shared)} shared objects)"))
+    independence(ctx, viol, label, res, pool, owners, ml)
+    return line, obs, shared, viol, tag
+
+
+def case_join(ctx, kind, case_seed):
+    import molli as ml
+
+    rng = common.Prng(case_seed)
+    I, ids = H.Intern(), H.Ids()
+    cls = getattr(ml, kind)
+    s1 = H.make_source(rng, kind, ml, ap=True)
+    s2 = H.make_source(rng, kind, ml, ap=True)
+    tag = {"case": "join", "kind": kind, "case_seed": case_seed}
     viol = []
     sn1, sn2 = H.snapshot(s1), H.snapshot(s2)
     enc = " ".join(H.encode_mol(s, I, ids) for s in (s1, s2))
     n = ids.count
     i1, i2 = s1.n_atoms - 1, s2.n_atoms - 1
+    # every keyword of join, the attachment points addressed as object, index or (unique) label
+    kw = {}
+    for k, vals in (("name", [None, "prod"]), ("dist", [None, 1.25]), ("optimize_rotation", [False, False, True]),
+                    ("charge", [None, 0, 2]), ("mult", [None, 3]), ("btype", [None, ml.BondType.Double]),
+                    ("bstereo", [None, ml.BondStereo.E]), ("bforder", [None, 1.5])):
+        v = rng.choice(vals)
+        if v is not None and rng.below(2):
+            kw[k] = v
+    s1.atoms[i1].label, s2.atoms[i2].label = "AP_one", "AP_two"
+    sn1, sn2 = H.snapshot(s1), H.snapshot(s2)
+    enc = " ".join(H.encode_mol(s, I, ids) for s in (s1, s2))
+    n = ids.count
+    how = rng.choice(["object", "index", "label"])
+    a1, a2 = {"object": (s1.atoms[i1], s2.atoms[i2]), "index": (i1, i2), "label": ("AP_one", "AP_two")}[how]
+    label = f"{kind}.join (attachment points by {how}" + "".join(f", {k}=…" for k in kw) + ")"
+    tag["keywords"] = sorted(kw) + [how]
     try:
         with warnings.catch_warnings():
             warnings.simplefilter("ignore")
-            if what == "concat":
-                res = cls.concatenate(s1, s2) if rng.below(2) or kind != "Structure" else (s1 | s2)
-            else:
-                res = cls.join(s1, s2, s1.atoms[i1], s2.atoms[i2], name=rng.choice([None, "prod"]))
+            res = cls.join(s1, s2, a1, a2, **kw)
     except Exception as e:
-        viol.append(("C06:route-raised", f"{what} of two {kind} raised {type(e).__name__}: {str(e)[:80]}"))
+        viol.append(("C06:route-raised", f"{label} raised {type(e).__name__}: {str(e)[:80]}"))
         return None, None, None, viol, tag
     if H.snapshot(s1) != sn1 or H.snapshot(s2) != sn2:
-        viol.append(("C06:source-changed-by-derivation", f"{what} of two {kind} changed a source"))
-    if what == "concat":
-        line = f"concat {n} {H.CLS_CODE[H.clsname(res)]} 0 0 - - - {enc}"
-    else:
-        sc = H._ints(H.scalars_of(res, I))
-        bf = H._ints(H.bond_fields(res.bonds[-1], I)) if len(res.bonds) else "-"
-        co = H._ints(H.array_codes(res.coords, I))
-        line = f"join {n} {H.CLS_CODE[H.clsname(res)]} {i1} {i2} {sc} {bf} {co} {enc}"
+        viol.append(("C06:source-changed-by-derivation", f"{label} changed a source"))
+    sc = H._ints(H.scalars_of(res, I))
+    bf = H._ints(H.bond_fields(res.bonds[-1], I)) if len(res.bonds) else "-"
+    co = H._ints(H.array_codes(res.coords, I))
+    line = f"join {n} {H.CLS_CODE[H.clsname(res)]} {i1} {i2} {sc} {bf} {co} {enc}"
     obs = H.obs_string(res, I)
-    shared = H.shared_paths(res, srcs)
+    shared = H.shared_paths(res, [s1, s2])
     rs = H.snapshot(res)
-    # ---- faithful (model-free expectation from the snapshots of the sources)
-    if True:
-        if what == "concat":
-            exp = expected_concat(sn1, sn2)
-            for k in ("atoms", "bonds", "arrays", "charge", "mult"):
-                if k == "arrays":
-                    got = [(a[0], tuple(a[1]), a[2]) for a in rs["arrays"]]
-                    want = [(a[0], tuple(a[1]), a[2]) for a in exp["arrays"]]
-                    bad = got != want
-                else:
-                    bad = rs[k] != exp[k]
-                if bad:
-                    sub = "arrays" if k == "arrays" else component(H.snap_diff({k: exp[k]}, {k: rs[k]})[0] if k in ("atoms", "bonds") else k)
-                    viol.append((f"C06:product-differs-from-sources:{sub}", f"concatenate of two {kind}: {k} of the result are not those of the sources"))
-                    break
-        else:
-            exp = expected_join(sn1, sn2, i1, i2)
-            if rs["atoms"] != exp["atoms"]:
-                dd = H.snap_diff({"atoms": exp["atoms"]}, {"atoms": rs["atoms"]})
-                viol.append((f"C06:product-differs-from-sources:{component(dd[0])}", f"join of two {kind}: atoms differ: {dd[:3]}"))
-            elif rs["bonds"][:-1] != exp["bonds"] or rs["bonds"][-1][:2] != exp["newbond"]:
-                viol.append(("C06:product-differs-from-sources:fields", f"join of two {kind}: bonds of the result are not those of the sources"))
-            elif exp["charges"] is not None and (len(rs["arrays"]) < 2 or tuple(rs["arrays"][1][2]) != tuple(exp["charges"][2])):
-                viol.append(("C06:product-differs-from-sources:arrays", f"join of two {kind}: partial charges of the result are not those of the sources"))
+    exp = expected_join(sn1, sn2, i1, i2)
+    if rs["atoms"] != exp["atoms"]:
+        dd = H.snap_diff({"atoms": exp["atoms"]}, {"atoms": rs["atoms"]})
+        viol.append((f"C06:product-differs-from-sources:{component(dd[0])}", f"{label}: atoms differ: {dd[:3]}"))
+    elif rs["bonds"][:-1] != exp["bonds"] or rs["bonds"][-1][:2] != exp["newbond"]:
+        viol.append(("C06:product-differs-from-sources:fields", f"{label}: bonds of the result are not those of the sources"))
+    elif exp["charges"] is not None and (len(rs["arrays"]) < 2 or tuple(rs["arrays"][1][2]) != tuple(exp["charges"][2])):
+        viol.append(("C06:product-differs-from-sources:arrays", f"{label}: partial charges of the result are not those of the sources"))
     if shared:
-        viol.append((f"C06:copy-shares-state:{component(shared[0])}", f"{what} of two {kind}: {shared[:3]} ({len(shared)} shared objects)"))
-    # ---- independence
-    apply_all(H.mutations(res, ml))
-    d = H.snap_diff(sn1, H.snapshot(s1)) or H.snap_diff(sn2, H.snapshot(s2))
-    if d:
-        viol.append((f"C06:source-changed-by-editing-copy:{component(d[0])}", f"{what} of two {kind}: editing the product changed a source in {d[:3]}"))
-    base = H.snapshot(res)
-    for s in srcs:
-        apply_all(H.mutations(s, ml))
-    d = H.snap_diff(base, H.snapshot(res))
-    if d:
-        viol.append((f"C06:copy-changed-by-editing-source:{component(d[0])}", f"{what} of two {kind}: editing a source changed the product in {d[:3]}"))
+        viol.append((f"C06:copy-shares-state:{component(shared[0])}", f"{label}: {shared[:3]} ({len(shared)} shared objects)"))
+    independence(ctx, viol, label, res, [s1, s2], [], ml)
     return line, obs, shared, viol, tag
 
 
+def case_parts(ctx, kind, case_seed):
+    """copies of single atoms and bonds: evolve() (with and without changes), deepcopy, pickle — oracle only"""
+    import copy as _copy
+    import pickle as _pickle
+
+    import molli as ml
+
+    rng = common.Prng(case_seed)
+    src = H.make_source(rng, kind, ml)
+    tag = {"case": "parts", "kind": kind, "case_seed": case_seed}
+    viol = []
+    snap0 = H.snapshot(src)
+    parts = [("atom", rng.choice(list(src.atoms)))] if src.n_atoms else []
+    if H.has_bonds(src) and len(src.bonds):
+        parts.append(("bond", rng.choice(list(src.bonds))))
+    for what, x in parts:
+        x.attrib = {"p": [1, {"q": 2}], "r": 3}
+        fields = (lambda a: H.atom_fields(a, H.Intern())) if what == "atom" else (lambda b: H.bond_fields(b, H.Intern()))
+        base_attr = _copy.deepcopy(x.attrib)
+        snap0 = H.snapshot(src)
+        for route, f in (("evolve()", lambda: x.evolve()), ("evolve(label=…)", lambda: x.evolve(label="changed")),
+                         ("deepcopy", lambda: _copy.deepcopy(x)),
+                         ("pickle", lambda: _pickle.loads(_pickle.dumps(x, protocol=rng.range(2, _pickle.HIGHEST_PROTOCOL))))):
+            label = f"{route} of a {what} of a {kind}"
+            try:
+                y = f()
+            except Exception as e:
+                viol.append(("C06:route-raised", f"{label} raised {type(e).__name__}: {str(e)[:80]}"))
+                continue
+            if H.snapshot(src) != snap0:
+                viol.append(("C06:source-changed-by-derivation", f"{label} changed the molecule"))
+            fx, fy = fields(x), fields(y)
+            if route == "evolve(label=…)":
+                if y.label != "changed":
+                    viol.append(("C06:copy-differs-from-source:fields", f"{label}: the change was not applied"))
+                y.label = x.label
+                fy = fields(y)
+            if fx != fy or y.attrib != base_attr:
+                viol.append(("C06:copy-differs-from-source:fields", f"{label}: fields or attributes differ"))
+            sh = [p for p, c in (("attrib", y.attrib), ("attrib['p']", y.attrib.get("p")), ("attrib['p'][1]", (y.attrib.get("p") or [0, 0])[1]))
+                  if any(c is d for d in (x.attrib, x.attrib["p"], x.attrib["p"][1]))]
+            if sh:
+                viol.append((f"C06:copy-shares-state:{component(sh[0])}", f"{label}: {sh} shared with the original"))
+            y.attrib["p"].append("m")
+            y.attrib["p"][1]["z"] = 1
+            y.attrib["new"] = 1
+            if x.attrib != base_attr or H.snapshot(src) != snap0:
+                viol.append(("C06:source-changed-by-editing-copy:attrib", f"{label}: editing the copy changed the original"))
+                x.attrib = _copy.deepcopy(base_attr)
+            ctx.count(f"route=parts:{what}:{route}")
+    return None, None, None, viol, tag
+
+
+def run_case(ctx, t):
+    c = t["case"]
+    if c == "parts":
+        return case_parts(ctx, t["kind"], t["case_seed"])
+    if c == "copy":
+        return case_copy(ctx, t["kind"], t["route"], t["case_seed"])
+    if c == "copyas":
+        return case_copyas(ctx, t["kind"], t["target"], t["mode"], t["case_seed"], t.get("kw"))
+    if c == "concat":
+        pattern = t.get("pattern")
+        if pattern is None and "same" in t:
+            pattern = [0, 0] if t["same"] else [0, 1]
+        return case_concat(ctx, t["kind"], t["case_seed"], pattern)
+    if c == "join":
+        return case_join(ctx, t["kind"], t["case_seed"])
+    raise ValueError(c)
+
+
 # ----------------------------------------------------------------------------------------------------------
+def plan_round(rng):
+    """one round of the route x kind x keyword matrix (every cell once, the random ones drawn per round)"""
+    out = []
+    def seed():
+        return rng.next() >> 16
+    for kind in H.KINDS:
+        for route in COPY_ROUTES + ["shallow"]:
+            out.append({"case": "copy", "kind": kind, "route": route, "case_seed": seed()})
+        # the class's own copy constructor with EACH of its keyword overrides, then with two at once
+        target = "Molecule" if kind == "Conformer" else kind
+        names = H.keyword_names(target)
+        for k in names:
+            out.append({"case": "copyas", "kind": kind, "target": target, "mode": "kw", "case_seed": seed(), "kw": [k]})
+        out.append({"case": "copyas", "kind": kind, "target": target, "mode": "kw", "case_seed": seed(),
+                    "kw": [rng.choice(names), rng.choice(names)]})
+        # copy construction into every other class, plain and with one keyword of the target
+        for target in H.CLASSES:
+            if target != ("Molecule" if kind == "Conformer" else kind):
+                out.append({"case": "copyas", "kind": kind, "target": target, "mode": "cast", "case_seed": seed(), "kw": []})
+                out.append({"case": "copyas", "kind": kind, "target": target, "mode": "cast", "case_seed": seed(),
+                            "kw": [rng.choice(H.keyword_names(target))]})
+        out.append({"case": "copyas", "kind": kind, "target": rng.choice(H.CLASSES), "mode": "atoms", "case_seed": seed()})
+        out.append({"case": "parts", "kind": kind, "case_seed": seed()})
+    out.append({"case": "copyas", "kind": "Molecule", "target": "ConformerEnsemble", "mode": "enslist", "case_seed": seed()})
+    for kind in ("Structure", "Molecule"):
+        for _ in range(4):
+            out.append({"case": "concat", "kind": kind, "case_seed": seed()})
+        out.append({"case": "concat", "kind": kind, "case_seed": seed(), "pattern": [0, 1, 2]})
+        out.append({"case": "concat", "kind": kind, "case_seed": seed(), "pattern": [0, 1, 0, 2]})
+        for _ in range(2):
+            out.append({"case": "join", "kind": kind, "case_seed": seed()})
+    return out
+
+
 def run(ctx):
     import molli as ml  # noqa: F401
 
     ctx.rule = ("random source objects (1..6 atoms, random bonds, elements, labels, isotopes, formal charges, nested attribute "
                 "dictionaries on molecule / atoms / bonds up to depth 3, coordinates, partial charges, weights; 12% dendrobine) of "
-                "each of the 7 kinds x {copy constructor, pickle, deepcopy}; Structure and Molecule pairs x {concatenate, |, join "
-                "(fragments with an attachment point)}, plus concatenate(s, s). Per case: observation and aliasing compared with the "
-                "model, snapshot oracle, then every mutable component of one side is mutated and the other re-inspected, both ways. "
-                "Non-trivial: the source has at least one nested attribute container or at least one bond; distinct by (kind, route, source).")
+                "each of the 7 kinds x {copy constructor, pickle (protocols 2..5), deepcopy, copy.copy (source only)}; the copy "
+                "constructor of every class applied to every kind (42 source/target pairs) with 0..2 of the keyword overrides name, "
+                "charge (incl. 0), mult, attrib, coords, atomic_charges, weights, n_conformers, copy_atoms, n_atoms; Cls(list of atoms, "
+                "copy_atoms=True); ConformerEnsemble(list of molecules); concatenate of 1..4 operands with repetitions and mixed "
+                "operand classes (Structure, Molecule, Conformer), `a | b`; join with every keyword and the attachment points given as "
+                "object / index / label. Per case: observation and aliasing compared with the model, snapshot oracle (source(s) before / "
+                "after the derivation, result = sources + overrides), then every mutable component of one side is mutated and the other "
+                "re-inspected, both ways. Non-trivial: the source has a nested attribute container or a bond; distinct by (route, kinds, keywords, source).")
     ctx.assumptions += [
         "CPython object model (identity, reference semantics, pickle memo) is modelled, not verified",
         "arrays are compared exactly (bit patterns); the coordinates of a join product are geometry (property C12) and are not compared",
         "molecule-level attributes and the name of a concatenate / join product are not claimed (the routes do not carry them)",
+        "keyword overrides follow the constructors' own rule `value or source value` (a charge / mult override of 0 is ignored)",
     ]
     ctx.proof(props=["Molli.Props.C06"])
 
     cases = []   # (line, obs, shared, tag)
     seen = set()
-    reps = 40 if ctx.quick() else 1200
+    reps = 5 if ctx.quick() else 80
     plan = []
     cdir = common.VERIF / "corpus" / "C06"
     for p in sorted(cdir.glob("*.json")) if cdir.exists() else []:
         plan += [("corpus", t) for t in json.loads(p.read_text())]
     for _ in range(reps):
-        for kind in H.KINDS:
-            for route in COPY_ROUTES:
-                plan.append(("rand", {"case": "copy", "kind": kind, "route": route, "case_seed": ctx.rng.next() >> 16}))
-        for kind in ("Structure", "Molecule"):
-            for what in ("concat", "join"):
-                plan.append(("rand", {"case": what, "kind": kind, "case_seed": ctx.rng.next() >> 16, "same": False}))
-        plan.append(("rand", {"case": "concat", "kind": ctx.rng.choice(["Structure", "Molecule"]), "case_seed": ctx.rng.next() >> 16, "same": True}))
+        plan += [("rand", t) for t in plan_round(ctx.rng)]
 
     for src, t in plan:
         ctx.check_deadline()
-        if t["case"] == "copy":
-            line, obs, shared, viol, tag = case_copy(ctx, t["kind"], t["route"], t["case_seed"])
-        else:
-            line, obs, shared, viol, tag = case_derive(ctx, t["case"], t["kind"], t["case_seed"], t.get("same", False))
+        line, obs, shared, viol, tag = run_case(ctx, t)
         nontrivial = bool(line) and ("c." in line or ("+" in line))
         ctx.case(json.dumps(tag, sort_keys=True) + (line or ""), nontrivial=nontrivial)
         ctx.count(f"source={src}")
         ctx.count(f"kind={t['kind']}")
-        ctx.count(f"route={t.get('route', t['case'])}")
+        route = t.get("route") or (t["case"] + (":" + t["mode"] if "mode" in t else ""))
+        ctx.count(f"route={route}")
+        if t["case"] == "copyas":
+            ctx.count(f"pair={t['kind']}->{t['target']}")
+        for kwd in tag.get("keywords", []):
+            ctx.count(f"keyword={route}:{kwd}")
+        if "pattern" in tag:
+            ctx.count(f"concat_operands={len(tag['pattern'])}:distinct={len(set(tag['pattern']))}")
         for k, what in viol:
             ctx.count(f"violation={k}")
             if k not in seen:
@@ -285,8 +564,8 @@ def run(ctx):
                 ctx.violation(k, what, tag)
         if line is not None and obs is not None:
             cases.append((line, obs, shared, tag))
-        if len(ctx.samples) < 3 and nontrivial:
-            ctx.sample({"case": tag, "request": (line or "")[:500]})
+        if len(ctx.samples) < 4 and nontrivial and src == "rand" and t["case"] != "copy":
+            ctx.sample({"case": tag, "request": (line or "")[:400]})
 
     outs = ctx.driver([c[0] for c in cases])
     for (line, obs, shared, tag), mout in zip(cases, outs):
@@ -309,10 +588,12 @@ def replay(ctx, path):
     t = obj.get("replay") or obj
     if "case" not in t:
         return 0
-    if t["case"] == "copy":
-        _, obs, shared, viol, _ = case_copy(ctx, t["kind"], t["route"], t["case_seed"])
-    else:
-        _, obs, shared, viol, _ = case_derive(ctx, t["case"], t["kind"], t["case_seed"], t.get("same", False))
+
+    class _C:
+        def count(self, *a, **k):
+            pass
+
+    _, obs, shared, viol, _ = run_case(_C(), t)
     print("violations on the real code:", viol)
     print("shared objects:", shared)
     return 1 if viol else 0
